@@ -317,3 +317,36 @@ Proof.
   revert st. induction h as [|[c u] h IH]; simpl; intros st Hok; [exact Hok|].
   apply IH, lr_adapt_preserves_ok, Hok.
 Qed.
+
+(* ---------------------------------------------------------------------------------------- *)
+(* the whole life of a low-rank transformation                                                *)
+(* ---------------------------------------------------------------------------------------- *)
+Lemma f_1em20_eq : f_1em20' = f_1em20. Proof. reflexivity. Qed.
+Lemma f_1e20_eq : f_1e20' = f_1e20. Proof. reflexivity. Qed.
+
+Theorem lr_update_from_grad_ok st pos grad : lrm_ok (lr_update_from_grad st pos grad).
+Proof.
+  unfold lrm_ok, lr_update_from_grad. simpl. rewrite !map_map. repeat split; try exact I.
+  - apply Forall_forall. intros y Hy. apply in_map_iff in Hy. destruct Hy as [g [<- _]].
+    rewrite f_1em20_eq, f_1e20_eq. apply (grad_finpos_1e20 g fone good_fone).
+  - apply Forall_forall. intros y Hy. apply in_map_iff in Hy. destruct Hy as [g [<- _]].
+    rewrite f_1em20_eq, f_1e20_eq. apply (grad_finpos_1e20 g fone good_fone).
+Qed.
+
+Theorem lr_step_ok st e : (match e with EvGrad _ _ => True | EvAdapt _ _ => lrm_ok st end) -> lrm_ok (lr_step st e).
+Proof.
+  destruct e as [pos grad|count upd]; simpl; intros H.
+  - apply lr_update_from_grad_ok.
+  - apply lr_adapt_preserves_ok, H.
+Qed.
+
+(* from the first initialisation on - whatever the transformation was before it, whatever the
+   gradients, windows and pipeline results are - the scales in use are finite and positive *)
+Theorem lr_lifetime_ok st0 pos grad (evs : list lr_event) :
+  lrm_ok (fold_left lr_step evs (lr_update_from_grad st0 pos grad)).
+Proof.
+  assert (H : forall evs st, lrm_ok st -> lrm_ok (fold_left lr_step evs st)).
+  { clear. induction evs as [|e evs IH]; simpl; intros st Hok; [exact Hok|].
+    apply IH, lr_step_ok. destruct e; [exact I|exact Hok]. }
+  apply H, lr_update_from_grad_ok.
+Qed.
